@@ -571,6 +571,17 @@ func aggregate(ck *Check, root, tier string, seed uint64, results map[int]*CaseR
 			}
 		}
 	}
+	if len(samples) == 0 {
+		// no case wrote itself out: describe the first cases by what they counted
+		for _, i := range idx {
+			if len(samples) < 3 {
+				samples = append(samples, map[string]interface{}{"case": i, "case_seed": results[i].CaseSeed, "class": results[i].Class, "observed": results[i].Counters})
+			}
+		}
+	}
+	if samples == nil {
+		samples = []interface{}{}
+	}
 	cov := map[string]interface{}{
 		"evaluations":         len(idx),
 		"distinct_nontrivial": distinct,
@@ -604,6 +615,9 @@ func aggregate(ck *Check, root, tier string, seed uint64, results map[int]*CaseR
 	}
 	cov["vacuity_floors"] = ck.Floors
 	cov["vacuity_floors_met"] = floorsOK
+	if ck.Assumptions == nil {
+		ck.Assumptions = []string{}
+	}
 	ev := Evidence{PropertyID: ck.ID, Tier: tier, Seed: int64(seed), Level: ck.Level, Coverage: cov,
 		Assumptions: ck.Assumptions, WallS: wall.Seconds(), Violations: len(newViolations)}
 	if tier != "quick" && tier != "thorough" {
